@@ -194,24 +194,27 @@ ADD = {
          "arrives; c17_history_answers_are_stateless); history suite against the real app with genuinely different roots.", ""),
 }
 ADD2 = {
- "C01": " Later in round 6: COPY / COPY INTO / file references with paths (c01_exact_on_copy_and_file_references; K-C01-8 path case lost), CTE chains "
+ "C01": " Later in round 6: join groups in the JOIN spelling exact (c01_exact_on_join_groups_join_spelling); COPY / COPY INTO / file references with paths (c01_exact_on_copy_and_file_references; K-C01-8 path case lost), CTE chains "
         "of any length (c01_exact_on_cte_chains; K-C01-9/10), parenthesised join groups refuted at table level (c01_join_groups_refuted, "
         "K-C01-11; FROM-clause navigation for the JOIN spelling proved in Tree/LemmaAGroup2.v), K-C01-12 (set operation with a parenthesised operand inside IN). "
         "Layout suites T3-render-path and T3-render-chain+group.",
- "C02": " MERGE with a derived-table source: model side proved, equation with the specification partial (Tree/LemmaBDmlDerived.v); CTE chains at "
+ "C02": " MERGE with a derived-table source proved (c02_exact_on_update_and_merge_incl_derived_source, Tree/LemmaBDmlDerived{,2}.v); CTE chains at "
         "column level: stated and tested only (Tree/LemmaBChain.v).",
  "C04": " Round 6: the end-to-end script theorem now covers statements with expression items (c04_script_exact_on_core_with_expressions, "
         "Tree/ScriptExactExpr.v) and scripts that also contain UPDATE / MERGE statements and plain SELECTs with expressions "
-        "(c04_script_exact_with_update_and_merge, Tree/ScriptExactDml.v); suite S3x compares the implementation with spec_script_pairs on "
+        "(c04_script_exact_with_update_and_merge, Tree/ScriptExactDml.v; roles: c03_script_roles_exact_with_update_merge_select_into); suite S3x compares the implementation with spec_script_pairs on "
         "scripts with expression items; scenarios with unqualified staging tables and positional INSERT into a table created earlier.",
- "C06": " Round 6: c06_script_paths_well_formed_with_expressions (scripts of statements with expression items).",
- "C03": " Round 6: every statement of a generated script is also analysed on its own and its reads/writes compared with those it has inside the script.",
+ "C06": " Round 6: c06_script_paths_well_formed_with_expressions (scripts of statements with expression items); "
+        "c06_script_paths_well_formed_with_update_and_merge_partial (two extra executable guards per DML statement).",
+ "C03": " Round 6: c03_script_roles_exact_with_update_merge_select_into (Tree/ScriptRolesDml.v; needed the new invariant theorem "
+        "c03_merge_holders_are_well_formed for the MERGE extractor, any tree). Every statement of a generated script is also analysed on its own and its reads/writes compared with those it has inside the script.",
  "C08": " Round 6: several qualified stars over relations sharing a column name; table alias with a derived column list x AS keyword (found and repaired, fix 62bbb18: "
         "without AS the column list was taken for the alias).",
  "C10": " Strict forms: c10_total_on_all_trees_strict (no ValueError disjunct, every statement type, under escape_free and nw_inner - both evaluated on "
         "every parse tree of the run) and c10_script_total_strict.",
  "C13": " Round 6: c13_exact_tables_any_provider_update_merge_select_into and c13_metadata_never_changes_tables_of_update_merge "
-        "(Tree/LemmaADmlMeta.v): UPDATE / MERGE / SELECT INTO under an arbitrary catalog.",
+        "(Tree/LemmaADmlMeta.v): UPDATE / MERGE / SELECT INTO under an arbitrary catalog; c13_exact_tables_any_provider_with_expressions, "
+        "c13_metadata_never_changes_tables_with_expressions (Tree/LemmaAExprMeta.v): the expression fragment at every depth.",
  "C17": " Overlapped requests (a second request served completely while the first reads its body) must get the answer they get alone.",
  "C18": " The text summary is compared with the roles the EXPORTED table graph shows (not with the accessors).",
 }
